@@ -47,7 +47,7 @@ def confirm(src, wt):
     release = "--release" if "--release" in open(demo).read() or (os.path.exists(os.path.join(src, "notes.md")) and "--release" in open(os.path.join(src, "notes.md")).read()) else ""
     cmd = "cargo test --offline %s --features verif-hooks --test %s 2>&1 | grep -E '^test result|panicked|^error' | head -5" % (release, tname)
     rc, out = sh(cmd, cwd=wt, env=env, timeout=3000)
-    res["demo_with_patch"] = "FAILS" if ("FAILED" in out or "failed" in out and "0 failed" not in out) else ("passes" if "test result: ok" in out else "?: " + out[-200:])
+    res["demo_with_patch"] = "FAILS" if ("FAILED" in out or "panicked" in out or "failed" in out and "0 failed" not in out) else ("passes" if "test result: ok" in out else "?: " + out[-200:])
     sh(["git", "apply", "-R", patch], cwd=wt)
     rc, out = sh(cmd, cwd=wt, env=env, timeout=3000)
     res["demo_without_patch"] = "passes" if ("test result: ok" in out and "FAILED" not in out) else "FAILS: " + out[-200:]
